@@ -40,6 +40,13 @@ def path(ctx, cfg):
     el.topologies = list(names)
     el.motif_id = list(ids)
     el.joint_degrees = list(jds)
+    # warm-up: another edge list is converted (both ways) first; nothing of it may survive into the conversion under test
+    w = LightWeightEdgeList()
+    w.edge_list = [(0, 1), (1, 2), (0, 2), (2, 3)]
+    w.topologies = ["w", "w", "w", "x"]
+    w.motif_id = [90, 90, 90, 91]
+    w.joint_degrees = [(5, 5)[:C], (6, 6)[:C], (7, 7)[:C], (8, 8)[:C]]
+    ctx.guard("convert-raised", NetworkToEdgeList.convert, ctx.guard("convert-raised", EdgeListToNetwork.convert, w))
     net = ctx.guard("convert-raised", EdgeListToNetwork.convert, el)
     G = net.G
     pairs = [(ctx.fork_int(a), ctx.fork_int(b)) for a, b in ends]  # concrete by now (hashed by networkx)
